@@ -334,8 +334,9 @@ pub mod verprobe {
             interfaces::owner(&env).require_auth();
             interfaces::set_owner(&env, &new_owner);
         }
-        pub fn version(env: Env) -> String {
-            env.storage().instance().get(&VKey::Version).unwrap()
+        /// (whatever is stored: a string unless the "new code" stored something else; fails if nothing is stored)
+        pub fn version(env: Env) -> soroban_sdk::Val {
+            env.storage().instance().get::<_, soroban_sdk::Val>(&VKey::Version).unwrap()
         }
         pub fn data(env: Env) -> Option<u32> {
             env.storage().instance().get(&VKey::Data)
@@ -350,7 +351,14 @@ pub mod verprobe {
             if fail {
                 panic!("migration failed");
             }
-            env.storage().instance().set(&VKey::Version, &new_version);
+            // "" = the new code has no working `version` entry point; "#" = its `version` returns a number
+            if new_version.len() == 0 {
+                env.storage().instance().remove(&VKey::Version);
+            } else if new_version == String::from_str(&env, "#") {
+                env.storage().instance().set(&VKey::Version, &7u32);
+            } else {
+                env.storage().instance().set(&VKey::Version, &new_version);
+            }
             env.storage().instance().set(&VKey::Data, &data);
         }
     }
